@@ -418,6 +418,16 @@ class P:
             for _ in range(4):
                 self.next()
             return ("structlit", ("var", "limbs"))
+        if v == "if" and self.peek(1)[1] == "let":
+            self.next()
+            self.next()
+            pat = self.mpat()
+            self.eat("=")
+            scrut = self.expr()
+            th = self.block()
+            self.eat("else")
+            el = self.block()
+            return ("iflet", pat, scrut, th, el)
         if v == "if":
             self.next()
             c = self.expr()
@@ -532,8 +542,21 @@ class Fn:
         self.tables = []
         self.mutouts = []
 
+    def mut_outs(self, env):
+        """Final contents of the `&mut` parameters.  A parameter (or a view) that has been re-bound to a
+        sub-slice view `let v = &mut xs[lo..hi]` is written back into what it is a view of, innermost first."""
+        val = {}
+        for v in reversed(getattr(self, "views", [])):
+            cur = val.get(v["vname"], env[v["vname"]][0])
+            if v["palias"] is None:
+                par = val.get(v["pname"], env[v["pname"]][0])
+                val[v["pname"]] = "(splice %s %s %s)" % (par, v["lo"], cur)
+            else:
+                val[v["vname"]] = "(splice %s %s %s)" % (v["palias"], v["lo"], cur)
+        return [val.get(m, env[m][0]) for m in self.mutouts]
+
     def unit_return(self, env):
-        outs = [env[m][0] for m in self.mutouts]
+        outs = self.mut_outs(env)
         return "Val " + ("tt" if not outs else outs[0] if len(outs) == 1 else "(" + ", ".join(outs) + ")")
 
     def fresh(self):
@@ -816,6 +839,15 @@ class Tr:
                 b3, a3, t3 = self.apply(f, "U." + self.binops[op], [("__atom", paren(a2))], env, recv=("__atom", paren(a1)))
                 return bs + b3, a3, t3
             raise Unsupported("operator %s on Uint" % op)
+        if op in ("==", "!=") and t1 == ("option", "u64") and y[0] == "call" and y[1] == ("var", "Some") \
+                and len(y[2]) == 1:
+            # `xs.last() != Some(&v)`
+            yv = y[2][0]
+            while yv[0] == "un" and yv[1] == "&":
+                yv = yv[2]
+            b3, a3, t3 = self.ex(f, yv, env, "u64")
+            r = "(match %s with Some x_ => x_ =? %s | None => false end)" % (a1, paren(a3))
+            return b1 + b3, r if op == "==" else "(negb %s)" % r, "bool"
         if op in ("==", "!=") and t1 == "matrix":       # #[derive(PartialEq)] on the tuple struct
             r = "(mat_eqb %s %s)" % (paren(a1), paren(a2))
             return bs, r if op == "==" else "(negb %s)" % r, "bool"
@@ -1199,6 +1231,25 @@ class Tr:
             if bp or tp != "bool":
                 raise Unsupported("closure body with checks")
             return b0, "(%s (fun %s => %s) %s)" % ("existsb" if m == "any" else "forallb", x, ap, paren(a0)), "bool"
+        if m == "rposition" and len(args) == 1 and args[0][0] == "closure" and len(args[0][1]) == 1 \
+                and recv[0] == "mcall" and recv[2] == "iter" and not recv[3]:
+            b0, a0, t0 = self.ex(f, recv[1], env)
+            if not (isinstance(t0, tuple) and t0[0] in ("slice", "arr")):
+                raise Unsupported(".iter() on a non-slice")
+            x = args[0][1][0]
+            env2 = dict(env)
+            env2[x] = (x, "u64")
+            bp, ap, tp = self.ex(f, args[0][2], env2, "bool")
+            if bp or tp != "bool":
+                raise Unsupported("closure body with checks")
+            return b0, "(iter_rposition (fun %s => %s) %s)" % (x, ap, paren(a0)), ("option", "usize")
+        if m == "expect" and len(args) == 1 and args[0][0] == "str":
+            b0, a0, t0 = self.ex(f, recv, env)
+            if not (isinstance(t0, tuple) and t0[0] == "option"):
+                raise Unsupported(".expect on a non-option")
+            f.impure = True
+            v = f.fresh()
+            return b0 + ["do %s <- (match %s with Some x_ => Val x_ | None => Panic end) ;" % (v, a0)], v, t0[1]
         if m == "unwrap_or" and len(args) == 1 and recv[0] == "mcall" and recv[2] == "rposition" and len(recv[3]) == 1 \
                 and recv[3][0][0] == "closure" and len(recv[3][0][1]) == 1 and recv[1][0] == "mcall" \
                 and recv[1][2] == "iter" and not recv[1][3]:
@@ -1564,6 +1615,66 @@ class Tr:
             env = dict(env)
             env[s[1][1]] = (s[1][1], s[2])      # type None until the first assignment
             return rest(env)
+        if k == "let" and s[1][0] == "pvar" and s[3][0] == "iflet" and s[3][1][0] == "psome" and s[3][1][1][0] == "pvar" \
+                and s[3][3][2] is not None and not s[3][3][1] and self.always_exits(s[3][4]):
+            # `let v = if let Some(i) = E { VIEW } else { ..; return; };`
+            bs_, as_, ts_ = self.ex(f, s[3][2], env)
+            if not (isinstance(ts_, tuple) and ts_[0] == "option"):
+                raise Unsupported("if let on a non-option")
+            iv = s[3][1][1][1]
+            nviews = len(getattr(f, "views", []))
+            else_code = self.stmts(f, s[3][4][1], 0, dict(env), lambda _e: "Panic", retty)
+            del getattr(f, "views", [])[nviews:]
+            env_t = dict(env)
+            env_t[iv] = (iv, ts_[1])
+            then_code = self.stmts(f, [("let", s[1], s[2], s[3][3][2])] + ss[i + 1:], 0, env_t, fin, retty)
+            f.impure = True
+            return "%s match %s with None => (%s) | Some %s =>\n  %s end" % (" ".join(bs_), as_, else_code, iv, then_code)
+        if k == "let" and s[1][0] == "pvar" and s[3][0] == "un" and s[3][1] == "&" and s[3][2][0] == "slice" \
+                and s[3][2][1][0] == "var" and s[3][2][1][1] in env and env[s[3][2][1][1]][1] == ("slice", "u64") \
+                and (s[3][2][1][1] in f.mutouts or any(v["vname"] == s[3][2][1][1] for v in getattr(f, "views", []))):
+            # `let v = &mut xs[lo..hi];` on a `&mut` slice parameter (or a view of one): v is a window that is
+            # written back into xs wherever the function returns (Fn.mut_outs)
+            if getattr(f, "noviews", 0):
+                raise Unsupported("sub-slice view inside a block that falls through")
+            pname, vname = s[3][2][1][1], s[1][1]
+            b_, sa_, lo_, hi_ = self.slice_bounds(f, s[3][2], env)
+            if not hasattr(f, "views"):
+                f.views = []
+            f.impure = True
+            env2_ = dict(env)
+            lov = "lo_%s%d" % (vname, len(f.views))          # the offset is fixed when the view is taken
+            if vname == pname:
+                alias = "%s_full%d" % (pname, len(f.views))
+                f.views.append({"vname": vname, "pname": pname, "lo": lov, "palias": alias})
+                env2_[vname] = (vname, ("slice", "u64"))
+                return "%s let %s := %s in let %s := %s in do %s <- subslice %s %s %s ;\n  %s" % (
+                    " ".join(b_), alias, sa_, lov, lo_, vname, alias, lov, paren(hi_), rest(env2_))
+            f.views.append({"vname": vname, "pname": pname, "lo": lov, "palias": None})
+            env2_[vname] = (vname, ("slice", "u64"))
+            return "%s let %s := %s in do %s <- subslice %s %s %s ;\n  %s" % (
+                " ".join(b_), lov, lo_, vname, paren(sa_), lov, paren(hi_), rest(env2_))
+        if k == "let" and s[1][0] == "ptuple" and len(s[1][1]) == 2 and all(q[0] == "pvar" for q in s[1][1]) \
+                and s[3][0] == "mcall" and s[3][2] == "split_at_mut" and len(s[3][3]) == 1 and s[3][1][0] == "var" \
+                and s[3][1][1] in env and env[s[3][1][1]][1] == ("slice", "u64"):
+            # `let (a, b) = xs.split_at_mut(n);`: two windows of xs, [0, n) and [n, len)
+            if getattr(f, "noviews", 0):
+                raise Unsupported("sub-slice view inside a block that falls through")
+            pname = s[3][1][1]
+            va, vb = s[1][1][0][1], s[1][1][1][1]
+            bn, an, _ = self.ex(f, s[3][3][0], env, "usize")
+            if not hasattr(f, "views"):
+                f.views = []
+            f.impure = True
+            par = env[pname][0]
+            lov = "lo_%s%d" % (vb, len(f.views))
+            f.views.append({"vname": va, "pname": pname, "lo": "0", "palias": None})
+            f.views.append({"vname": vb, "pname": pname, "lo": lov, "palias": None})
+            env2_ = dict(env)
+            env2_[va] = (va, ("slice", "u64"))
+            env2_[vb] = (vb, ("slice", "u64"))
+            return "%s let %s := %s in do %s <- subslice %s 0 %s ; do %s <- subslice %s %s (lenZ %s) ;\n  %s" % (
+                " ".join(bn), lov, an, va, par, lov, vb, par, lov, par, rest(env2_))
         if k == "let" and s[3][0] == "try":
             # `let p = E?;` in a function returning Option: None is returned at once
             b, a, t = self.ex(f, s[3][1], env)
@@ -1604,7 +1715,7 @@ class Tr:
             wrapl, wrapr = ("(Ret ", ")") if getattr(f, "retloops", 0) else ("", "")
             if f.mutouts:
                 # (result, new values of the &mut parameters): a callee that updated them has rebound their names
-                return " ".join(b) + " Val %s(%s)%s" % (wrapl, ", ".join([a] + [env[m][0] for m in f.mutouts]), wrapr)
+                return " ".join(b) + " Val %s(%s)%s" % (wrapl, ", ".join([a] + f.mut_outs(env)), wrapr)
             return " ".join(b) + " Val %s%s%s" % (wrapl, paren(a) if wrapl else a, wrapr)
         if k == "assign":
             tgt = s[1]
@@ -1699,7 +1810,9 @@ class Tr:
                 th, el = e[2], e[3]
                 # early return / continue: `if c { ..; return e; }`, `if c { ..; continue; }`
                 if el is None and self.always_exits(th):
+                    nviews = len(getattr(f, "views", []))
                     body = self.stmts(f, th[1], 0, dict(env), lambda _e: "Panic", retty)
+                    del getattr(f, "views", [])[nviews:]
                     return "%s if %s then (%s) else\n  %s" % (" ".join(bc), ac, body, rest(env))
                 # `if c { ..; return x; } else { ..; return y; }`: nothing after it is reachable
                 if el is not None and self.always_exits(th) and self.always_exits(el):
@@ -1727,8 +1840,12 @@ class Tr:
                     if not vs:
                         return "Val tt"
                     return "Val " + ("(" + ", ".join(env2[v][0] for v in vs) + ")" if len(vs) != 1 else env2[vs[0]][0])
-                s1 = self.stmts(f, th[1], 0, dict(env), endb, retty)
-                s2 = self.stmts(f, el[1], 0, dict(env), endb, retty) if el is not None else "Val " + cur
+                f.noviews = getattr(f, "noviews", 0) + 1
+                try:
+                    s1 = self.stmts(f, th[1], 0, dict(env), endb, retty)
+                    s2 = self.stmts(f, el[1], 0, dict(env), endb, retty) if el is not None else "Val " + cur
+                finally:
+                    f.noviews -= 1
                 if (th[2] is not None) or (el is not None and el[2] is not None):
                     raise Unsupported("if statement with a value")
                 f.impure = True
@@ -2004,6 +2121,11 @@ class Tr:
                     bd, ad, _ = self.ex(f, e[3][1], env, "usize")
                     return "%s do %s <- copy_within %s %s %s %s ;\n  %s" % (
                         " ".join(bl + bh + bd), nm, nm, paren(al), paren(ah), paren(ad), rest(env))
+                if e[2] == "fill" and recv[0] == "var" and len(e[3]) == 1 and recv[1] in env \
+                        and env[recv[1]][1] == ("slice", "u64"):
+                    nm = env[recv[1]][0]
+                    bv, av, _ = self.ex(f, e[3][0], env, "u64")
+                    return "%s let %s := repeat %s (length %s) in\n  %s" % (" ".join(bv), nm, paren(av), nm, rest(env))
                 if e[2] == "fill" and recv[0] == "slice" and recv[1][0] == "var" and recv[3] is None and len(e[3]) == 1:
                     nm = env[recv[1][1]][0]
                     bl, al, _ = self.ex(f, recv[2], env, "usize")
@@ -2076,7 +2198,7 @@ class Tr:
                 b, a = [], None
             else:
                 b, a, t = self.ex(f, body[2], env2, ret)
-            outs = ([a] if a is not None else []) + [env2[m][0] for m in mutouts]
+            outs = ([a] if a is not None else []) + f.mut_outs(env2)
             a = "tt" if not outs else outs[0] if len(outs) == 1 else "(" + ", ".join(outs) + ")"
             return (" ".join(b) + " " if b else "") + "Val %s" % a
         if body[2] is not None and body[2][0] == "match" and ret == ("tuple", []):
@@ -2275,6 +2397,7 @@ TARGETS = [
     ("src/gcd.rs", UINT_IMPL, "lcm", "U.lcm", "g_u_lcm", "uint"),
     ("src/gcd.rs", UINT_IMPL, "gcd_extended", "U.gcd_extended", "g_u_gcd_extended", "uint"),
     ("src/modular.rs", UINT_IMPL, "inv_mod", "U.inv_mod", "g_u_inv_mod", "uint"),
+    ("src/algorithms/div/mod.rs", None, "div", "div", "g_div", None),
     ("src/modular.rs", UINT_IMPL, "reduce_mod", "U.reduce_mod", "g_reduce_mod", "uint"),
     ("src/modular.rs", UINT_IMPL, "add_mod", "U.add_mod", "g_add_mod", "uint"),
     ("src/modular.rs", UINT_IMPL, "mul_mod", "U.mul_mod", "g_mul_mod", "uint"),
